@@ -439,12 +439,22 @@ func rulePREC1(c *Ctx) {
 				if o := IdentObj(info, call.Args[1]); o != nil {
 					// which field does the block replace?
 					which := ""
+					setsNonDefault := false
 					for _, fs := range fieldStores(info, ifs.Body, false) {
 						if fs.Field.Name() == "marshal" || fs.Field.Name() == "unmarshal" {
 							which = fs.Field.Name()
 						}
+						if fs.Field.Name() == "nonDefault" {
+							if as, ok := fs.Stmt.(*ast.AssignStmt); ok && len(as.Rhs) == 1 && isTrueConst(info, as.Rhs[0]) {
+								setsNonDefault = true
+							}
+						}
 					}
 					order = append(order, which+":"+o.Name())
+					// every block that installs a method wrapper also declares the type non-default
+					// (map-key uniqueness, omitempty and the Deterministic fast paths rely on that bit)
+					c.Oblige("installer-sets-nondefault:"+o.Name(), ifs.Pos(), which == "" || setsNonDefault,
+						"the block that installs the "+which+" wrapper for "+o.Name()+" does not set fncs.nonDefault = true: callers would treat the type as having its default representation")
 				}
 			}
 		}
@@ -973,12 +983,48 @@ func errIgnoreReason(p *Program, f *FuncInfo, call *ast.CallExpr, name string) (
 			if d := p.enclosingDecl(caller); d != nil {
 				cd = d
 			}
-			if !in[cd] {
+			if !in[cd] && !in[caller] {
 				private = false
 			}
 		}
 		if private {
 			return r + " (inherited by the private helper " + self.Name + " of " + rev + ")", true
+		}
+	}
+	// a method on the same receiver type as a reviewed method (the reviewed method was renamed or split):
+	// the justification is about the data the type holds (names already validated by the tokenizer)
+	recvOf := func(fn *types.Func) string {
+		sig, _ := fn.Type().(*types.Signature)
+		if sig == nil || sig.Recv() == nil {
+			return ""
+		}
+		t := sig.Recv().Type()
+		if pt, ok := t.(*types.Pointer); ok {
+			t = pt.Elem()
+		}
+		if nt, ok := t.(*types.Named); ok {
+			return nt.Obj().Pkg().Path() + "." + nt.Obj().Name()
+		}
+		return ""
+	}
+	if rs := recvOf(self.Obj); rs != "" {
+		for _, rev := range sortedKeys(errIgnoreTable) {
+			r, ok := errIgnoreTable[rev][short]
+			if !ok {
+				continue
+			}
+			if rf := p.Func(rev); rf != nil && rf.Obj != nil && recvOf(rf.Obj) == rs {
+				return r + " (same receiver type as the reviewed " + rev + ")", true
+			}
+			// the reviewed method no longer exists under that name: match by the receiver spelled in the key
+			if i := strings.Index(rev, ".(*"); i >= 0 {
+				if j := strings.Index(rev[i:], ")."); j > 0 {
+					typ := rev[i+3 : i+j]
+					if strings.HasSuffix(rs, "."+typ) && strings.HasPrefix(rev, self.Obj.Pkg().Name()+".") {
+						return r + " (method of " + typ + ", reviewed as " + rev + ")", true
+					}
+				}
+			}
 		}
 	}
 	return "", false
